@@ -19,8 +19,10 @@ import logging
 import sys
 from typing import IO, Optional, Type, cast
 
+from boolean.boolean import ParseError
 from jinja2 import Environment, FileSystemLoader, Template
 from jinja2.exceptions import TemplateNotFound
+from license_expression import ExpressionError
 
 from . import ReuseInfo
 from ._util import _determine_license_suffix_path
@@ -35,7 +37,13 @@ from .exceptions import (
     MissingReuseInfoError,
     TemplateRenderError,
 )
-from .extract import contains_reuse_info, detect_line_endings
+from .extract import (
+    _HEADER_BYTES,
+    SPDX_SNIPPET_INDICATOR,
+    contains_reuse_info,
+    detect_line_endings,
+    extract_reuse_info,
+)
 from .header import add_new_header, find_and_replace_header
 from .i18n import _
 from .project import Project
@@ -208,6 +216,27 @@ def add_header_to_file(
         out.write("\n")
         result = 1
     else:
+        # The new header is of no use if the reader stumbles over another tag
+        # in the file that it cannot parse: it then reads nothing at all.
+        try:
+            extract_reuse_info(
+                output
+                if SPDX_SNIPPET_INDICATOR.decode("utf-8") in output
+                else output.encode("utf-8", errors="replace")[
+                    :_HEADER_BYTES
+                ].decode("utf-8", errors="replace")
+            )
+        except (ExpressionError, ParseError):
+            out.write(
+                _(
+                    "Error: '{path}' contains an SPDX License Expression that"
+                    " cannot be parsed. Did not write new header."
+                ).format(path=path)
+            )
+            out.write("\n")
+            if created_license_file:
+                path.unlink()
+            return 1
         try:
             # Opening the file for writing empties it. Find out first whether
             # the text can be written at all: a value that came in on the
